@@ -29,6 +29,16 @@ type cliCfg struct {
 
 const lpInput = "m1,t1=a f1=1i,f2=\"s\",ts=\"2021-03-04 05:06:07\",message=\"lpmsg\" 1600000000000000000\nm2,t9=z f9=9i 1600000001000000000\n"
 
+// line-protocol input flavours (Cli!Inputs): the first POINT is the input
+var lpInputs = map[string]string{
+	"lineprotocol":        lpInput,
+	"lp_comment_first":    "# exported by a tool\n# second comment line\n" + lpInput,
+	"lp_blank_first":      "\n\n" + lpInput,
+	"lp_newline_in_field": "m1,t1=a f1=1i,f2=\"line one\nline two\",ts=\"2021-03-04 05:06:07\",message=\"lpmsg\" 1600000000000000000\nm2,t9=z f9=9i 1600000001000000000\n",
+}
+
+func isLP(in string) bool { _, ok := lpInputs[in]; return ok }
+
 func cliScript(kind, in string) string {
 	switch kind {
 	case "noop":
@@ -36,7 +46,7 @@ func cliScript(kind, in string) string {
 	case "addField":
 		return "add_key(nf, 5)\n"
 	case "toTag":
-		if in == "lineprotocol" {
+		if isLP(in) {
 			return "set_tag(f1)\n"
 		}
 		return "add_key(keep, 1)\nset_tag(message)\n" // line protocol cannot print a point without fields
@@ -45,7 +55,7 @@ func cliScript(kind, in string) string {
 	case "clearMeas":
 		return "set_measurement(\"\")\n"
 	case "setTime":
-		if in == "lineprotocol" {
+		if isLP(in) {
 			return "default_time(ts)\n"
 		}
 		return "add_key(ts, \"2021-03-04 05:06:07\")\ndefault_time(ts)\n"
@@ -96,7 +106,7 @@ func libraryResult(scripts map[string]string, name, in string, data []byte, now 
 	var tags map[string]string
 	var fields map[string]any
 	tn := now
-	if in == "lineprotocol" {
+	if isLP(in) {
 		pts, err := models.ParsePointsWithPrecision(data, now, "")
 		if err != nil {
 			return nil, nil, err
@@ -134,10 +144,14 @@ func parseCliOutput(stdout, format string) (*cliPoint, error) {
 		}
 		return &cliPoint{doc.Measurement, doc.Tags, doc.Fields, doc.Time}, nil
 	}
-	line := strings.SplitN(body, "\n", 2)[0]
-	pts, err := models.ParsePointsString(line)
+	// the whole body is one point (a string field may contain a line break); fall back to its first line
+	pts, err := models.ParsePointsString(body)
 	if err != nil || len(pts) != 1 {
-		return nil, fmt.Errorf("output is not one line-protocol point: %v: %q", err, line)
+		line := strings.SplitN(body, "\n", 2)[0]
+		pts, err = models.ParsePointsString(line)
+		if err != nil || len(pts) != 1 {
+			return nil, fmt.Errorf("output is not one line-protocol point: %v: %q", err, body)
+		}
 	}
 	p := influxdb.NewPointFrom(pts[0])
 	f, _ := p.Fields()
@@ -225,8 +239,10 @@ func replayCli(args []string) (any, error) {
 		switch v.Cfg.Input {
 		case "text":
 			data = []byte("hello cli world")
-		case "lineprotocol":
-			data = []byte(lpInput)
+		default:
+			if isLP(v.Cfg.Input) {
+				data = []byte(lpInputs[v.Cfg.Input])
+			}
 		}
 		if v.Cfg.Input != "none" {
 			_ = os.WriteFile(inPath, data, 0o644)
@@ -240,7 +256,11 @@ func replayCli(args []string) (any, error) {
 			cliArgs = []string{"run", "-w", "", "-s", filepath.Join(ws, "main.p"), "--output-type", v.Cfg.Output}
 		}
 		if v.Cfg.Input != "none" {
-			cliArgs = append(cliArgs, "-i", inPath, "-t", v.Cfg.Input)
+			typ := v.Cfg.Input
+			if isLP(typ) {
+				typ = "lineprotocol"
+			}
+			cliArgs = append(cliArgs, "-i", inPath, "-t", typ)
 		}
 		cmd = exec.Command(bin, cliArgs...)
 		cmd.Dir = dir
@@ -300,7 +320,10 @@ func replayCli(args []string) (any, error) {
 			return nil
 		}
 		// (ii) the specification's abstract final point
-		wantMeas := map[string]string{"text": "default_name", "lineprotocol": "m1"}[v.Cfg.Input]
+		wantMeas := "default_name"
+		if isLP(v.Cfg.Input) {
+			wantMeas = "m1"
+		}
 		if v.Out.Meas == "new" {
 			wantMeas = "newm"
 		}
@@ -317,7 +340,7 @@ func replayCli(args []string) (any, error) {
 				bad(fmt.Sprintf("time %v, the script set %v", got.Time.UTC(), want))
 				return nil
 			}
-		} else if v.Cfg.Input == "lineprotocol" && !got.Time.Equal(time.Unix(1600000000, 0)) {
+		} else if isLP(v.Cfg.Input) && !got.Time.Equal(time.Unix(1600000000, 0)) {
 			bad(fmt.Sprintf("time %v, the input point has %v", got.Time.UTC(), time.Unix(1600000000, 0).UTC()))
 			return nil
 		}
